@@ -17,3 +17,35 @@ func typeNamed(t types.Type) *types.Named {
 	n, _ := t.(*types.Named)
 	return n
 }
+
+// isBoolType: the (underlying) type is bool.
+func isBoolType(t types.Type) bool {
+	b, ok := t.Underlying().(*types.Basic)
+	return ok && b.Kind() == types.Bool
+}
+
+// subFieldName: the name of the Task field that holds the collected sub-streams - identified by its type,
+// map[string][]*FileIP (a private field: its spelling is not part of any rule).
+func (e *Env) subFieldName() string {
+	if tk := e.P.Named("scipipe", "Task"); tk != nil {
+		if st, ok := tk.Underlying().(*types.Struct); ok {
+			for i := 0; i < st.NumFields(); i++ {
+				if mt, ok := st.Field(i).Type().Underlying().(*types.Map); ok {
+					if sl, ok := mt.Elem().Underlying().(*types.Slice); ok && typeNamed(sl.Elem()) != nil && typeNamed(sl.Elem()).Obj().Name() == "FileIP" {
+						return st.Field(i).Name()
+					}
+				}
+			}
+		}
+	}
+	return "subStreamIPs"
+}
+
+// joinFlagName: the name of the PortInfo flag that makes the formatter join a sub-stream (found by the
+// formatter analysis), "join" when it cannot be determined.
+func (e *Env) joinFlagName() string {
+	if fi := e.formatter(); fi != nil && fi.joinFld != nil {
+		return fi.joinFld.Name()
+	}
+	return "join"
+}
